@@ -798,7 +798,8 @@ def run(ctx):
         plan = ["nn" if k != 1 else "hop-only" for k in range(reps)]
         # multi-term operators (on-site and hopping handed over as separate terms, split, repeated, zero terms)
         if ctx.thorough:
-            plan += MULTI_KINDS if nq <= 10 else ["trace-first", "split3"]
+            # 11-12 qubits (one eigvalsh of a 2048/4096-dim matrix each): multi-term only on shapes with a face
+            plan += MULTI_KINDS if nq <= 10 else (["trace-first", "split3"] if min(r, c) >= 2 else [])
         else:
             plan += (["trace-first", "onsite+hop", "split3", "repeat"] if nq <= 8 else ["trace-first"])
         for k, kind in enumerate(plan):
